@@ -90,6 +90,12 @@ fn states_case<T: Sc>(rng: &mut Rng, case: u64, out: &mut CaseOut) {
     let g = gen_problem(rng, &GenOpts { nmax: if T::IS_F64 { 80 } else { 40 }, smax: 7, ..Default::default() });
     let mut spec = g.spec;
     spec.alpha0 = wide_alpha(rng, &g.alpha_true);
+    if rng.chance(0.3) {
+        // a user threshold may truncate the *coefficients*; the projector of the Jacobian is still the
+        // one onto the whole range of the (full column rank) weighted basis matrix
+        spec.eps = Some(rng.logrange(1e-6, 0.3) * rng.sign());
+        out.count("states_with_user_threshold");
+    }
     let ctl = SpyCtl::new();
     let mut prob = match build_problem::<T>(&spec, &ctl) {
         Ok(p) => p,
@@ -266,7 +272,7 @@ pub fn run(ctx: &Ctx) {
     ctx.assume("reference mismatches explained by the measured reconstruction error of the dependency's SVD are attributed to KF-1");
     let t = ctx.tier;
     let b = t.pick(15.0, 150.0);
-    ctx.run_cases("states", t.pick(2000, 50000), b, |r, c, o| if c % 3 == 0 { states_case::<f32>(r, c, o) } else { states_case::<f64>(r, c, o) });
-    ctx.run_cases("gradient", t.pick(400, 10000), b, gradient_case);
-    ctx.run_cases("fit-exchanges", t.pick(300, 8000), b, |r, c, o| if c % 4 == 0 { fit_case::<f32>(r, c, o) } else { fit_case::<f64>(r, c, o) });
+    ctx.run_cases("states", t.pick(10000, 50000), b, |r, c, o| if c % 3 == 0 { states_case::<f32>(r, c, o) } else { states_case::<f64>(r, c, o) });
+    ctx.run_cases("gradient", t.pick(2000, 10000), b, gradient_case);
+    ctx.run_cases("fit-exchanges", t.pick(1500, 8000), b, |r, c, o| if c % 4 == 0 { fit_case::<f32>(r, c, o) } else { fit_case::<f64>(r, c, o) });
 }
